@@ -1139,6 +1139,11 @@ func (g *G) Stmt() Out {
 			return Out{cat(d.Toks, semi()), d.Str}
 		case 1:
 			g.Kinds["funcdecl"]++
+			if len(g.lexScopes) > 0 {
+				// K-C03-1: a function declaration in a block gets a fresh name, never the name of a let/const/class of an
+				// enclosing scope (valid, but rejected) nor of the same block (invalid, but accepted)
+				g.Excluded["K-C03-1"]++
+			}
 			return g.function(false)
 		case 2:
 			g.Kinds["classdecl"]++
@@ -1441,6 +1446,8 @@ func (g *G) moduleItem() Out {
 	switch g.intn("moduleitem", 8) {
 	case 0:
 		g.Kinds["import"]++
+		// K-C03-2: imported names are fresh, never re-declared lexically (that would have to be rejected, but is accepted)
+		g.Excluded["K-C03-2"]++
 		mod := g.pick("module", []string{`"m"`, `'./x.js'`})
 		switch g.intn("importform", 5) {
 		case 0:
